@@ -235,6 +235,10 @@ def run(ctx):
             r.check(len(sc) == 1 and "overwrite_permitted" in describe_operand(st, sc[0].args[3]), "SendCommand::step/appends-one-record", where(st), "SendCommand sends one ad hoc command per step with its own overwrite flag")
 
 
+    with ctx.rule("C14.R10", "T1+T7", "every frame is addressed with the lane it belongs to (the sender's lane name is set per frame, for the lane of that frame)", floor=15) as r:
+        uplinks.frame_lane_name(r, ctx)
+
+
 def _assign_operand(body, block, suffix):
     for i, j, p, rv, line in body.assigns():
         if i == block and p[1] and describe_place(body, p).endswith(suffix) and rv[0] == "use":
